@@ -1,2 +1,36 @@
-/- C16 — property theorems (to be added); model: -/
-import E57.Model.Writer
+/-
+C16 — device faults surface as errors; short I/O changes nothing.
+
+`E57/Model/DevIO.lean` models the page layer ONE LEVEL BELOW `E57/Model/Pages.lean`: a device whose every call
+(write, read, seek, stream_position, flush) consumes one behaviour of a schedule chosen by the environment —
+complete, short (n bytes), interrupted, failed — and on top of it std's `write_all` / `read_exact` loops, the
+`read_current_page` loop, the paged writer with its failure latch and the paged reader, issuing device calls in the
+order of the Rust code.  Suite `devio` runs the REAL `PagedWriter` / `PagedReader` over a device following the same
+schedule and compares per operation ok/err/value, the device bytes and how much of the schedule was consumed.
+
+Theorems (`E57/Proofs/DevIO.lean`, namespace `E57.DIO`):
+ * `short_io_changes_nothing`, `benign_complete`   under any schedule of complete and short (≥ 1 byte) transfers every
+   writer operation succeeds with the ideal result, the abstraction of the state is the ideal `PW` state and the
+   device bytes are identical to the unchunked run (= `Spec.image` of the logical stream).
+ * `short_reads_change_nothing`   the same for the reader: identical values, identical abstract state.
+ * `step_post` / `rstep_post`   the shape of EVERY operation result under any schedule without 0-byte transfers:
+   ok (ideal result, no failure consumed, latch untouched) or an error (a non-benign behaviour was consumed; the
+   latch is set) — never a panic (`no_panic`, `rstep_no_panic`: all loops are total).
+ * `fault_surfaces`, `latch_absorbing`, `runOps_latched`   a device failure makes the call in progress return an error
+   and sets the latch; with the latch set every later call returns the latch error and touches neither state nor device.
+ * `run_clean`, `finalize_ok_complete_partial`   for ANY schedule (without 0-byte transfers): if every call of a run
+   ending in flush reports success then no failure was consumed and the device holds `Spec.image` of the ideal run's
+   stream — "whenever finalize reports success the device holds the complete file".
+ * `finalize_ok_complete_statement_false`   the same claim for schedules with a 0-byte `read` is FALSE (a `read` that
+   answers Ok(0) although data follows is taken as end of file by `read_current_page`); such a device violates the
+   `Read` contract, the hypothesis `Sane` excludes exactly that.
+ * `writeAll_interrupted`, `ctl_interrupted`, `readLoop_interrupted`   which `Interrupted` results the code survives:
+   inside `write_all`'s device writes and inside `read_exact`; at a seek / flush / page re-read it fails the call and
+   latches the writer (never silently).
+ * `read_err_state`, `read_fail_equiv`   a failing read leaves cursor and data unchanged and the cache empty, so the
+   reader continues as a fresh one (history independence, C17).
+ * non-vacuity: `exFaultCheck_true`, `exSoftCheck_true`, `exRCheck_true`, `exRFaultCheck_true` (kernel-evaluated).
+Not modelled: `Drop` (one more flush, errors ignored), `io::copy`, a failing write that transferred part of its buffer.
+-/
+import E57.Model.DevIO
+import E57.Proofs.DevIO
